@@ -306,3 +306,57 @@ func forall(lo, hi int, f func(int) bool) bool {
 //@   loop 0:
 //@     invariant fresh(diff) && setInv(diff)
 //@     invariant forall(func(x T) bool { return has(diff.m, x) == (exists(0, idx_, func(k int) bool { return s.l[k] == x }) && !has(s2.m, x)) })
+
+// ---- SortedMap (C16: the Kinesis split tracker keeps its known shards in one). The map holds
+// the values, the list holds exactly the map's keys, each once; iteration is in key order.
+//@ define smInv(sm) := sm != nil &&
+//@        forall(func(kk_ K) bool { return has(sm.m, kk_) == exists(0, len(sm.list), func(jj_ int) bool { return sm.list[jj_] == kk_ }) }) &&
+//@        forall(0, len(sm.list), func(ii_ int) bool { return forall(0, ii_, func(jj_ int) bool { return sm.list[jj_] != sm.list[ii_] }) }) &&
+//@        (sm.isSorted ==> forall(0, len(sm.list), func(ii_ int) bool { return forall(0, ii_, func(jj_ int) bool { return cmp.Compare(sm.list[jj_], sm.list[ii_]) <= 0 }) }))
+
+//@ func NewSortedMap
+//@   property C16
+//@   ensures fresh(result) && smInv(result) && len(result.list) == 0 && forall(func(k K) bool { return !has(result.m, k) })
+
+//@ func SortedMap.Set
+//@   property C16
+//@   requires smInv(sm)
+//@   modifies sm.list, sm.m, sm.isSorted
+//@   ensures smInv(sm) && result == !has(old(sm.m), k)
+//@   ensures forall(func(x K) bool { return has(sm.m, x) == (has(old(sm.m), x) || x == k) })
+//@   ensures same(sm.m[k], v) && forall(func(x K) bool { return x != k ==> same(sm.m[x], old(sm.m)[x]) })
+
+//@ func SortedMap.Get
+//@   property C16
+//@   modifies nothing
+//@   ensures result1 == has(sm.m, k) && (result1 ==> same(result0, sm.m[k]))
+
+//@ func SortedMap.Size
+//@   property C16
+//@   modifies nothing
+//@   ensures result == len(sm.list)
+
+//@ func SortedMap.ensureSorted
+//@   property C16
+//@   requires smInv(sm)
+//@   modifies sm.list
+//@   ensures smInv(sm) && len(sm.list) == old(len(sm.list))
+//@   ensures forall(0, len(sm.list), func(i int) bool { return forall(0, i, func(j int) bool { return cmp.Compare(sm.list[j], sm.list[i]) <= 0 }) })
+
+//@ func SortedMap.Delete
+//@   property C16
+//@   requires smInv(sm)
+//@   modifies sm.list, sm.m
+//@   ensures smInv(sm) && result == has(old(sm.m), k)
+//@   ensures forall(func(x K) bool { return has(sm.m, x) == (has(old(sm.m), x) && x != k) })
+//@   ensures forall(func(x K) bool { return x != k ==> same(sm.m[x], old(sm.m)[x]) })
+
+//@ func SortedMap.All
+//@   property C16
+//@   requires smInv(sm)
+//@   modifies sm.list
+//@   ensures smInv(sm) && seqlen(result) == len(sm.list)
+//@   ensures forall(0, seqlen(result), func(j int) bool { return seqat(result, j) == sm.list[j] && same(seqat2(result, j), sm.m[sm.list[j]]) })
+//@   ensures forall(0, len(sm.list), func(i int) bool { return forall(0, i, func(j int) bool { return cmp.Compare(sm.list[j], sm.list[i]) < 0 }) })
+//@   loop 0:
+//@     invariant len(out_) == idx_ && len(out2_) == idx_ && forall(0, idx_, func(j int) bool { return out_[j] == sm.list[j] && same(out2_[j], sm.m[sm.list[j]]) })
